@@ -60,11 +60,13 @@ class DensityEstimator(ABC):
 
         simplex = array([[c, w], [c, 0.95 * w], [c - 0.05 * w, w]])
         weight = 0.2 / self(self.mode)
+        # the cost is dimensionless, but the search variables carry the units of the
+        # data, so the position tolerance must be relative to the interval width
         result = minimize(
             fun=self.__hdi_cost,
             x0=simplex[0, :],
             method="Nelder-Mead",
-            options={"initial_simplex": simplex},
+            options={"initial_simplex": simplex, "xatol": 1e-6 * w, "fatol": 1e-12},
             args=(fraction, weight),
         )
         c, w = result.x
